@@ -271,6 +271,10 @@ func collectVars(f *ssa.Function) *fnVars {
 		v.RTypes = append(v.RTypes, res.At(i).Type())
 		seen[n] = true
 	}
+	lseen := map[string]bool{}
+	for _, pn := range v.PNames {
+		lseen[pn] = true
+	}
 	for _, b := range f.Blocks {
 		for _, ins := range b.Instrs {
 			a, ok := ins.(*ssa.Alloc)
@@ -278,10 +282,11 @@ func collectVars(f *ssa.Function) *fnVars {
 				continue
 			}
 			n := a.Comment
-			if !isIdent(n) || seen[n] || n == "complit" || n == "varargs" || n == "result" {
+			if !isIdent(n) || (seen[n] && !(n == "result" && !lseen[n])) || n == "complit" || n == "varargs" || n == "slicelit" {
 				continue
 			}
 			seen[n] = true
+			lseen[n] = true
 			v.LNames = append(v.LNames, n)
 			v.LTypes = append(v.LTypes, a.Type().(*types.Pointer).Elem())
 			v.LAllocs = append(v.LAllocs, a)
